@@ -190,7 +190,7 @@ def run(tier, seed):
             # the first ALTER would make later ALTERs invisible in that mode only)
             from .. import clauses as KM
             others = [m_ for m_ in KM.MODES if m_ not in ("sql", "bigquery", "mssql", "hql")]
-            pool_ = g.beh if thorough else rnd.sample(g.beh, min(len(g.beh), 2200))
+            pool_ = g.beh if thorough else rnd.sample(g.beh, min(len(g.beh), 1300))
             for mi, m_ in enumerate(others):
                 n2, nu2, _ = compare(V, pool_[mi::len(others)], seeds[:1], f"{what}/{m_}", run={"output_mode": m_})
                 total += n2
